@@ -14,7 +14,7 @@ EXPLANATION = (
     "channel whose only sender is the guard's Drop; every stream returned was inserted first.")
 # every anchor of these rules lives in the h3 crate: thorough tier repeats them on the feature-less build
 EXTRA_CONFIGS = ["h3-plain"]
-RULES = "C09-a guard tied to every handle (A12/A10/A4); C09-b shared by both halves (A4/A12); C09-c completion gating and draining (A2/A3/A7/A10), recv_closing read only after this poll's control-stream processing (A2); shared through a proxy: C04-b (poll_accept_recv) under C09-c"
+RULES = "C09-a guard tied to every handle (A12/A10/A4); C09-b shared by both halves (A4/A12); C09-c completion gating and draining (A2/A3/A7/A10), recv_closing read only after this poll's control-stream processing (A2); shared through a proxy: C04-b (poll_accept_recv), the Goaway rows of C04-a and C08-d (process_goaway) under C09-c"
 
 SV = "h3::server::connection::Connection::"
 SEND = "tokio::sync::mpsc::unbounded::UnboundedSender::send"
@@ -224,3 +224,9 @@ def run(ctx):
     if not getattr(ctx, "nested", False):
         from rules import C04 as _c04, shared as _sh
         _c04.run(_sh.Proxy(ctx, ("C04-b",), "C09-c", only=("poll_accept_recv",)))
+        # a legal GOAWAY from the client starts the drain (accept() -> None once the requests have ended): it must not be refused - the
+        # Goaway rows of the control dispatch (C04-a: handed to the role layer, no check the server has no business making) and
+        # process_goaway's verdicts (C08-d: an error only for a LARGER identifier)
+        _c04.run(_sh.Proxy(ctx, ("C04-a",), "C09-c", constructs=("Goaway",)))
+        from rules import C08 as _c08
+        _c08.run(_sh.Proxy(ctx, ("C08-d",), "C09-c", only=("process_goaway",)))
